@@ -53,7 +53,7 @@ def _writes(steps, kinds):
 
 def expand(model_exe, workdir, templates, prefix, fuel=20000, r_values=tuple(range(0, 13)), max_wv=8, max_wa=5, slack=6,
            kinds=WRITE_KINDS, shapes=("va", "vo", "mid"), read_points=False, max_rp=400, staged=False, max_ws=4,
-           staged_r_values=None, staged_shapes=("va", "vo"), staged_max_wa=None, lazy=False, spin_cap=40):
+           staged_r_values=None, staged_shapes=("va", "vo"), staged_max_wa=None, lazy=False, spin_cap=40, big=None, profiler=None):
     """templates: list of {"name": str, "cfg": [...], "threads": [[op...]...], "setup": 0|1}
        ("setup": 1 = thread 0 is a set-up thread: it runs to completion before anything else and takes no part in the windows).
        read_points: the victim is also stalled before every step that is NOT a write (load-load windows: "an `if` that is
@@ -65,12 +65,20 @@ def expand(model_exe, workdir, templates, prefix, fuel=20000, r_values=tuple(ran
        helping / retry path), the actor may be s itself (it resumes) or a third thread.
     -> (cases, info)   cases: {"id","cfg","threads","sched","kind":"window","tpl":name,"solo":{tid: solo length},"solo_w":{tid: solo writes}}"""
     os.makedirs(workdir, exist_ok=True)
+    if profiler is not None:
+        # IMPLEMENTATION-guided windows (variants without a step model): the probe cases are run on the real code by
+        # profiler(cases, tag) -> logs in the format of conc_check.parse_logs (see pseudo_log below); model_exe is unused
+        _run = lambda exe, wd, cs, tag, fl: profiler(cs, tag) if cs else {}
+    else:
+        _run = _run_model
+    BIG = big or globals()["BIG"]          # "run this thread to its end" in the probe schedules (lock-based models: keep it small,
+                                           # a thread that spins on a lock held by a parked thread spins for BIG steps)
     # round 1: length of the set-up thread
     probes = []
     for ti, t in enumerate(templates):
         if t.get("setup"):
             probes.append({"id": "%sp1_%d" % (prefix, ti), "cfg": t["cfg"], "threads": t["threads"], "sched": [0] * (3 * BIG)})
-    lg = _run_model(model_exe, workdir, probes, prefix + "p1", fuel)
+    lg = _run(model_exe, workdir, probes, prefix + "p1", min(fuel, 3 * BIG + 2))     # probes stop when their schedule ends
     nprobe = len(probes)
     # entries: one per (template, stage); stage 0 = right after the set-up
     entries = []
@@ -89,7 +97,7 @@ def expand(model_exe, workdir, templates, prefix, fuel=20000, r_values=tuple(ran
             e["parts"] = list(range(1 if t.get("setup") else 0, len(t["threads"])))
             for p in e["parts"]:
                 probes.append({"id": "%s%s_%s_%d" % (prefix, rtag, e["tag"], p), "cfg": t["cfg"], "threads": t["threads"], "sched": e["pre"] + [p] * BIG})
-        lg = _run_model(model_exe, workdir, probes, prefix + rtag, fuel)
+        lg = _run(model_exe, workdir, probes, prefix + rtag, min(fuel, max([len(p_["sched"]) for p_ in probes] + [0]) + 2))
         for e in ents:
             e["solo"] = {}
             e["rp"] = {}
@@ -119,8 +127,9 @@ def expand(model_exe, workdir, templates, prefix, fuel=20000, r_values=tuple(ran
                     for a in e["parts"]:
                         if a != v:
                             probes.append({"id": "%s%s_%s_%d_%d_%d" % (prefix, rtag, e["tag"], v, pv, a), "cfg": t["cfg"], "threads": t["threads"],
-                                           "sched": e["pre"] + [v] * (pv - 1) + [a] * BIG})
-        lg = _run_model(model_exe, workdir, probes, prefix + rtag, fuel)
+                                           "sched": e["pre"] + [v] * (pv - 1) + [a] * (e["solo"][a][0] + 60)})
+        # the run of a probe stops when its schedule ends (the models are slow when threads spin on a lock of a parked thread)
+        lg = _run(model_exe, workdir, probes, prefix + rtag, min(fuel, max([len(p_["sched"]) for p_ in probes] + [0]) + 2))
         for e in ents:
             t = e["t"]
             pre = e["pre"]
@@ -150,7 +159,7 @@ def expand(model_exe, workdir, templates, prefix, fuel=20000, r_values=tuple(ran
                         plog = lg.get("%s%s_%s_%d_%d_%d" % (prefix, rtag, e["tag"], v, pv, a))
                         allst = _steps(plog, a)[pre_n.get(a, 0):]
                         ast = allst[:cap]
-                        finished = plog is not None and len(allst) <= cap
+                        finished = plog is not None and len(allst) < cap      # scheduled for cap steps: fewer = its program ended
                         pas = [("w%d" % x, x) for x in _writes(ast, kinds)[:max_wa]]
                         if finished and ast:
                             pas.append(("full", len(ast)))
@@ -203,6 +212,17 @@ def expand(model_exe, workdir, templates, prefix, fuel=20000, r_values=tuple(ran
     if not lazy:
         finalize(cases)
     return cases, info
+
+
+def pseudo_log(tsteps, twrites):
+    """log (format of conc_check.parse_logs) that carries only what expand() reads: per thread the number of scheduled steps
+    and which of them are CAS / exchange accesses.  tsteps: {tid: n}; twrites: {tid: [1-based step indices]}"""
+    lines = []
+    for t in sorted(tsteps):
+        w = set(twrites.get(t, ()))
+        for i in range(1, tsteps[t] + 1):
+            lines.append("%d %s o0 1" % (t, "cas" if i in w else "ld") if i > 1 or i in w else "%d begin" % t)
+    return {"lines": lines, "end": "finished", "extra": []}
 
 
 def finalize(cases):
